@@ -36,7 +36,7 @@ from .. import c19_geom as G
 FIXED_SLICE = '1'      # Parallel2dGeometry.__getitem__ passes the translated det_pos_init
 FIXED_CURV = '1'       # ConeBeamGeometry.__getitem__ passes a scalar curvature radius
 FIXED_COVER = '0'      # cone_beam_geometry / helical_geometry extents
-FIXED_INPUT_ALIAS = '0'   # constructors keep references to caller-owned translation / src_to_det_init / init_matrix
+FIXED_INPUT_ALIAS = '1'   # constructors keep references to caller-owned translation / src_to_det_init / init_matrix
 FIXED_ATTR_ALIAS = '0'    # array-valued attributes are the (writable) internal arrays
 
 SLICEABLE = ('par2d', 'par3dax', 'fan', 'cone')
